@@ -576,19 +576,25 @@ package core
 //@   assumed
 //@   ensures (result == nil ==> ruleWriteFailed[0] == old(ruleWriteFailed[0])) && (result != nil ==> ruleWriteFailed[0] == old(ruleWriteFailed[0]) + 1)
 //@   modifies ghost kvhas, ghost kvval, ghost ruleWriteFailed
-// Rule groups are stored under path.Join("rule_group", id) with the RAW id (rules use hex-encoded ids): the key is
-// "rule_group/<id>" - distinct per id and found again by the prefix scan - only when the id is one clean path segment
-// (no "/", not "." or "..", not empty). cleanPathSegment is that (uninterpreted) predicate; callers must establish it.
+// Rule groups are stored under "rule_group/" + the RAW group id (rules use hex-encoded ids), and the kv layer of a running
+// PD joins every key to its root path with path.Join, which cleans it: the writers refuse a group id whose key cleaning
+// would change (it would share another group's record or leave the prefix - "../alloc_id" is the id allocator's window).
+//@ pure cleanGroupId(id string) = gocall("path.Join#0/2", "rule_group", id) == strcat("rule_group/", id)
+//@ func ruleGroupKey
+//@   props C13 C04
+//@   ensures [clean-or-refused] r1 == nil ==> r0 == strcat("rule_group/", groupID) && cleanGroupId(groupID)
+//@   modifies nothing
 //@ func (*Storage).SaveRuleGroup
-//@   assumed
-//@   requires [group-id-is-one-clean-path-segment] ufb("cleanPathSegment", groupID)
-//@   ensures (result == nil ==> ruleWriteFailed[0] == old(ruleWriteFailed[0])) && (result != nil ==> ruleWriteFailed[0] == old(ruleWriteFailed[0]) + 1)
-//@   modifies ghost kvhas, ghost kvval, ghost ruleWriteFailed
+//@   props C13 C04
+//@   ensures [refused-unless-cleaning-leaves-the-key-alone] result == nil ==> cleanGroupId(groupID)
+//@   option nosafety
+//@   modifies ghost kvhas, ghost kvval, ghost evres
 //@ func (*Storage).DeleteRuleGroup
-//@   assumed
-//@   requires [group-id-is-one-clean-path-segment] ufb("cleanPathSegment", groupID)
-//@   ensures (result == nil ==> ruleWriteFailed[0] == old(ruleWriteFailed[0])) && (result != nil ==> ruleWriteFailed[0] == old(ruleWriteFailed[0]) + 1)
-//@   modifies ghost kvhas, ghost kvval, ghost ruleWriteFailed
+//@   props C13 C04
+//@   ensures [refused-unless-cleaning-leaves-the-key-alone] result == nil ==> cleanGroupId(groupID)
+//@   ensures [one-key] forall k :: k != strcat("rule_group/", groupID) ==> kvval[k] == old(kvval[k]) && kvhas[k] == old(kvhas[k])
+//@   option nosafety
+//@   modifies ghost kvhas, ghost kvval, ghost evres
 
 // LoadRangeByPrefix (paged scan used to load placement rules, rule groups, ...): every page after the first starts at
 // a key of the form k + one more byte, never at a delivered key itself - otherwise the last key of every full page
